@@ -316,6 +316,8 @@ class Lit:
                 return getattr(base, n.attr)
             if isinstance(base, BaseException) and n.attr == 'args':
                 return base.args
+            if base is None and not n.attr.startswith('__'):
+                raise AttributeError("'NoneType' object has no attribute '%s'" % n.attr)
             raise NotLiteral('attribute ' + n.attr)
         if isinstance(n, ast.Starred):
             raise NotLiteral('starred')
